@@ -7,7 +7,7 @@ from reactivex import operators as ops
 
 from vlib.core import OK, Check
 from vlib.lab import conform
-from vlib.timeops import CLOCKS, combine, cv, effective, execute_all, first_fire, fwd, judge, mk_lab, nelems, outcomes, second_sub, sources, sub_ticks, targ, triggers
+from vlib.timeops import mk_trigger, sched_modes, sched_setup, CLOCKS, combine, cv, effective, execute_all, first_fire, fwd, judge, mk_lab, nelems, outcomes, second_sub, sources, sub_ticks, targ, triggers
 
 PROPERTY_ID = "C16"
 LEVEL = "exploration"
@@ -23,7 +23,7 @@ RULE = (
     "observable): at each tick the latest not-yet-sampled element, completion at the first tick after the source completed, "
     "source error immediately. A timer/tick and a source notification at exactly the same instant may be ordered either way "
     "(one order per timer and instant; for sample one order for ALL ticks of a subscription: an element arriving exactly on a "
-    "tick is either always sampled by that tick or always by the next one). Non-trivial: >=1 element suppressed and >=1 emitted. In 1 case of 3 (not for sample with a sampler observable) the same built observable is subscribed a second time at a generated tick s1 in s0+{0,1,2,3,7} and the same per-subscription oracle is applied to that probe. Distinct = distinct case JSON."
+    "tick is either always sampled by that tick or always by the next one). Non-trivial: >=1 element suppressed and >=1 emitted. In 1 case of 3 (not for sample with a sampler observable) the same built observable is subscribed a second time at a generated tick s1 in s0+{0,1,2,3,7} and the same per-subscription oracle is applied to that probe. Scheduler passing: debounce, throttle_first and sample(period) are run in the modes sub (no argument, subscription carries the lab scheduler), arg (scheduler argument, subscription carries none) and arg-other (argument, subscription carries a different never-started virtual scheduler reading +1000 ticks) and must behave identically; one in four throttle observables is a scheduler-less library factory (timer(d), empty(), return_value, never) and the sampler observable may be a scheduler-less interval(p): they must inherit the subscribe-time scheduler. Any request for the real-time TimeoutScheduler during a run is refused and reported (realtime-fallback), any action left on the decoy scheduler is reported (wrong-scheduler). Distinct = distinct case JSON."
 )
 ASSUMPTIONS = [
     "throttle_first windows and sample periods are > 0 (documented precondition); debounce due time >= 0",
@@ -41,7 +41,7 @@ def _nt(exp, n):
 
 
 def _base_cls(case):
-    return [f"clock:{case['clock']}", f"src:{case['src']['kind']}"] + ([f"form:{case['form']}"] if "form" in case else [])
+    return [f"clock:{case['clock']}", f"src:{case['src']['kind']}", f"sch:{case.get('sch') or 'sub'}"] + ([f"form:{case['form']}"] if "form" in case else [])
 
 
 def _judge_nt(op, case, lab, p, outs, cls, n):
@@ -82,7 +82,8 @@ def _run_debounce(case):
     src = lab.source(case["src"])
     f = ops.throttle_with_timeout if case.get("alias") else ops.debounce
     ticks = sub_ticks(case)
-    probes = execute_all(lab, src.pipe(f(targ(lab, case["form"], d))), ticks)
+    kw, sub = sched_setup(lab, case)
+    probes = execute_all(lab, src.pipe(f(targ(lab, case["form"], d), **kw)), ticks, sub=sub)
     return combine([_judge_debounce(case, lab, p, s, d) for p, s in zip(probes, ticks)], ticks)
 
 
@@ -109,7 +110,8 @@ def _run_tf(case):
     s0, w = case["s0"], case["d"]
     src = lab.source(case["src"])
     ticks = sub_ticks(case)
-    probes = execute_all(lab, src.pipe(ops.throttle_first(targ(lab, case["form"], w))), ticks)
+    kw, sub = sched_setup(lab, case)
+    probes = execute_all(lab, src.pipe(ops.throttle_first(targ(lab, case["form"], w), **kw)), ticks, sub=sub)
     return combine([_judge_tf(case, lab, p, s, w) for p, s in zip(probes, ticks)], ticks)
 
 
@@ -163,7 +165,7 @@ def _run_twm(case):
     s0, ths = case["s0"], case["ths"]
     src = lab.source(case["src"])
     ticks = sub_ticks(case)
-    probes = execute_all(lab, src.pipe(ops.throttle_with_mapper(lambda x: lab.source(ths[x]))), ticks)
+    probes = execute_all(lab, src.pipe(ops.throttle_with_mapper(lambda x: mk_trigger(lab, ths[x]))), ticks)
     return combine([_judge_twm(case, lab, p, s, ths) for p, s in zip(probes, ticks)], ticks)
 
 
@@ -172,6 +174,8 @@ def _judge_twm(case, lab, p, s0, ths):
     cls = _base_cls(case)
     for q in ths:
         ff = first_fire(q["tl"])
+        if q["kind"].startswith("lib:"):
+            cls.append("throttle:" + q["kind"])
         cls.append("throttle:" + ("never" if ff is None else ("sync-immediate" if q["kind"] == "sync" and ff[0] == 0 else ("immediate" if ff[0] == 0 else "later"))))
         if len(conform(q["tl"])) > 1:
             cls.append("throttle:multi-event")
@@ -223,9 +227,21 @@ def _run_sample(case):
         effs = [effective(case["src"], s) for s in subs]
         H = max([max([s] + [m[0] for m in e]) for s, e in zip(subs, effs)]) + 2 * per + 1
         tickss = [list(range(s + per, H + 1, per)) for s in subs]
-        op = ops.sample(targ(lab, case["form"], per))
+        kw, sub = sched_setup(lab, case)
+        op = ops.sample(targ(lab, case["form"], per), **kw)
         cls.append("sampler:period")
+    elif case["sampler"]["kind"] == "lib:interval":
+        # a scheduler-less library interval as sampler observable: must inherit the subscribe-time scheduler
+        per = case["sampler"]["period"]
+        sub = "lab"
+        subs = sub_ticks(case)
+        effs = [effective(case["src"], s) for s in subs]
+        H = max([max([s] + [m[0] for m in e]) for s, e in zip(subs, effs)]) + 2 * per + 1
+        tickss = [list(range(s + per, H + 1, per)) for s in subs]
+        op = ops.sample(mk_trigger(lab, case["sampler"]))
+        cls.append("sampler:lib:interval")
     else:
+        sub = "lab"
         subs = [s0]
         sm = lab.source(case["sampler"])
         seff = effective(case["sampler"], s0)
@@ -239,7 +255,7 @@ def _run_sample(case):
                 return OK(False, cls + ["trivial-horizon"])
         op = ops.sample(sm)
         cls.append("sampler:" + case["sampler"]["kind"])
-    probes = execute_all(lab, src.pipe(op), subs, until=H)
+    probes = execute_all(lab, src.pipe(op), subs, until=H, sub=sub)
     res = []
     for p, eff, ticks in zip(probes, effs, tickss):
         c = list(cls)
@@ -259,7 +275,7 @@ def _run_sample(case):
 def _rel_cases(draw, ds, alias=False, max_len=6):
     d = draw(st.sampled_from(ds))
     s0, spec = draw(sources(d=d, max_len=max_len))
-    c = {"clock": draw(st.sampled_from(CLOCKS)), "s0": s0, "src": spec, "d": d, "form": draw(st.sampled_from(FORMS)), "s1": second_sub(draw, s0)}
+    c = {"clock": draw(st.sampled_from(CLOCKS)), "s0": s0, "src": spec, "d": d, "form": draw(st.sampled_from(FORMS)), "s1": second_sub(draw, s0), "sch": sched_modes(draw)}
     if alias:
         c["alias"] = draw(st.booleans())
     return c
@@ -280,6 +296,10 @@ def _sample_cases(draw):
     if draw(st.booleans()):
         c["period"] = per
         c["form"] = draw(st.sampled_from(FORMS))
+        c["s1"] = second_sub(draw, s0)
+        c["sch"] = sched_modes(draw)
+    elif draw(st.integers(0, 3)) == 0:
+        c["sampler"] = {"kind": "lib:interval", "period": per}
         c["s1"] = second_sub(draw, s0)
     else:
         kind = draw(st.sampled_from(["cold", "cold", "hot"]))
